@@ -22,6 +22,9 @@ import Gotree.Lemmas.C07Single
 import Gotree.Lemmas.C07OracleG
 import Gotree.Lemmas.C07Deg
 import Gotree.Lemmas.C07Cmd
+import Gotree.Lemmas.C07Sites
+import Gotree.Lemmas.C07Hist
+import Gotree.Gen.C07Sites
 
 namespace Gotree.C07
 open Gotree
@@ -915,5 +918,204 @@ theorem resolve_defined_example :
     drawScript exS = [1, 2, 3, 4, 5, 6] ∧
     ((resolve exS [0, 1, 0, 2, 4, 3]).map fun t => (t.binary, t.splits.length)) = some (true, 9) ∧
     resolve exS [0, 1, 0, 2, 4] = none ∧ resolve exS [0, 2, 0, 2, 4, 3] = none := by decide
+
+
+/-! ## The table regenerated from the Go source (`harness/c07/extract.go` → `Gotree/Gen/C07Sites.lean`)
+
+  `sites_*_check`: the facts of the source, re-read on every run, are the ones the model was written from
+  (`Sites.exp…` in Model/C07Sites.lean), up to the direction in which a comparison is written.
+  `sites_sel…`, `sites_guards`, `contractL_follows_guards`, `sites_resolve_threshold`, `sites_cmd_defaults`:
+  what those facts MEAN — the conditions of the table, evaluated, are the selectors and the branch decisions
+  of the model, for all inputs.  When a decision fails the driver still runs (it does not import the table)
+  and the oracle looks for a concrete failing input. -/
+
+open Sites Gen.C07Sites in
+theorem sites_selectors_check :
+    Gen.C07Sites.selLen.norm = expSelLen ∧ Gen.C07Sites.selSup.norm = expSelSup ∧
+    Gen.C07Sites.selDepth.norm = expSelDepth ∧
+    Gen.C07Sites.depthErr.norm = expDepthErr ∧ depthValue = expDepthValue ∧ removeArgs = expRemoveArgs := by
+  decide +kernel
+
+open Sites Gen.C07Sites in
+theorem sites_removeEdges_check : guards.map Guard.norm = expGuards := by decide +kernel
+
+open Sites Gen.C07Sites in
+theorem sites_resolve_check :
+    resolveConds.map Ex.norm = expResolveConds ∧ resolveSets = expResolveSets ∧
+    resolveReads = expResolveReads ∧ resolveTop = expResolveTop := by decide +kernel
+
+open Sites Gen.C07Sites in
+/-- the three sentinels are `-1`, the model's `NIL` -/
+theorem sites_consts_check :
+    (["NIL_SUPPORT", "NIL_LENGTH", "NIL_PVALUE"].all fun n => (consts.lookup n).bind litRat? == some NIL) = true := by
+  decide +kernel
+
+open Sites Gen.C07Sites in
+theorem sites_accessors_check : accessors = expAccessors ∧ tipDef.norm = expTipDef := by decide +kernel
+
+open Sites in
+/-- `Node.Tip()` as found in the source: a node is a tip iff it has exactly one neighbour — the reading
+    `βGuard` gives to `$e.Left().Tip()` (a root with one neighbour IS a tip) and `T.isLeaf` to `$e.Right().Tip()` -/
+theorem sites_tip (deg : Nat) : eval (ρDeg deg) βNone Gen.C07Sites.tipDef = some (deg == 1) := by
+  rw [← eval_norm, sites_accessors_check.2]; exact tip_expected deg
+
+open Sites Gen.C07Sites in
+theorem sites_cmds_check : cmds = expCmds := by decide +kernel
+
+open Sites in
+/-- `CollapseShortBranches`: the condition found in the source IS `selLen` -/
+theorem sites_selLen (l : Rat) (s : SplitE) :
+    eval (ρLen l s) βNone Gen.C07Sites.selLen = some (selLen l s) := by
+  rw [← eval_norm, sites_selectors_check.1]; exact selLen_expected l s
+
+open Sites in
+/-- `CollapseLowSupport`: the condition found in the source, with the value of `NIL_SUPPORT` found in the
+    source, IS `selSup` -/
+theorem sites_selSup (x : Rat) (s : SplitE) :
+    eval (ρSup Gen.C07Sites.consts x s) βNone Gen.C07Sites.selSup = some (selSup x s) := by
+  rw [← eval_norm, sites_selectors_check.2.1]
+  refine selSup_expected _ x s ?_
+  have h := sites_consts_check
+  simp only [List.all_cons, List.all_nil, Bool.and_true, Bool.and_eq_true, beq_iff_eq] at h
+  exact h.1
+
+open Sites in
+/-- `CollapseTopoDepth`: the condition found in the source, on the value of `TopoDepth`, IS `selDepth` -/
+theorem sites_selDepth (total : Nat) (mn mx : Int) (s : SplitE) :
+    eval (ρDepth (topoDepth total s) mn mx) βNone Gen.C07Sites.selDepth = some (selDepth total mn mx s) := by
+  rw [← eval_norm, sites_selectors_check.2.2.1]; exact selDepth_expected total mn mx s
+
+open Sites in
+/-- `Edge.TopoDepth`: the error condition found in the source, on the sizes stored on a branch, IS `staleErr` -/
+theorem sites_depthErr (stored : List (Int × Nat × Nat)) (s : SplitE) :
+    eval (ρSizes (storedSizes stored s.e.id)) βNone Gen.C07Sites.depthErr = some (staleErr stored s) := by
+  rw [← eval_norm, sites_selectors_check.2.2.2.1]; exact depthErr_expected _
+
+open Sites in
+/-- `RemoveEdges`: the two guards found in the source, run in their order, decide like the model -/
+theorem sites_guards (rr rt childTip : Bool) (deg : Nat) (atRoot : Bool) :
+    fateOfGuards Gen.C07Sites.guards rr rt childTip deg atRoot = fateOfModel rr rt childTip deg atRoot := by
+  rw [← fateOfGuards_norm, sites_removeEdges_check]; exact fate_expected rr rt childTip deg atRoot
+
+open Sites in
+/-- … and `contractL` does to the branch carrying `id` what the guards of the source say: kept (length 0
+    under `removeTips`) when an end point is a tip, kept when it is a root branch of a degree-2 root and
+    `removeRoot` is off, contracted otherwise (`none` = `delNeighbor`). -/
+theorem contractL_follows_guards (rr rt isRoot : Bool) (id : Int) (deg : Nat) (e : EdgeD) (c : T) (r : Kids)
+    (h : (e.id == id) = true) :
+    (contractL (rr || !isRoot) rt id deg ((e, c) :: r)).1.head? =
+      match fateOfGuards Gen.C07Sites.guards rr rt c.isLeaf deg isRoot with
+      | .tip z => some (some (if z then zeroLen e else e, contractT (rr || !isRoot) rt id false c))
+      | .rootBranch => some (some (e, contractT (rr || !isRoot) rt id false c))
+      | .contracted => some none
+      | .unknown => none := by
+  rw [sites_guards]
+  unfold fateOfModel
+  rw [contractL]
+  simp only [h, if_true]
+  generalize (c.isLeaf || deg == 1) = b1
+  generalize (!(rr || !isRoot) && deg == 2) = b2
+  cases b1 <;> cases b2 <;> rfl
+
+open Sites in
+/-- `resolveRecur`: the test found in the source (`len(current.Neigh()) > 3`, the same text for the `if`
+    and for the `for`) is the one of `resolveNode` — a node with at most three neighbours is left as it is
+    and draws nothing. -/
+theorem sites_resolve_threshold (isRoot : Bool) (d : NodeD) (p : Nat) (k : Kids) (ds : List Nat) :
+    Gen.C07Sites.resolveConds.getD 1 (.atom "") = Gen.C07Sites.resolveConds.getD 4 (.atom "") ∧
+    (eval (ρNeigh (k.length + (if isRoot then 0 else 1))) βNone (Gen.C07Sites.resolveConds.getD 1 (.atom "")) = some false →
+      resolveNode isRoot d p k ds = some (.node d p k, ds)) := by
+  have h1 : (Gen.C07Sites.resolveConds.getD 1 (.atom "")).norm = .cmp "<" "3" "len($0.Neigh())" := by
+    decide +kernel
+  refine ⟨by decide +kernel, fun h => ?_⟩
+  rw [← eval_norm, h1, resolveCond_expected] at h
+  have hle : k.length + (if isRoot then 0 else 1) ≤ 3 := by
+    have := Option.some.inj h
+    simp at this; omega
+  unfold resolveNode
+  simp only [hle, if_true]
+
+open Sites in
+/-- the commands: omitting every option is giving each the default the source registers for it -/
+theorem sites_cmd_defaults (recs : List Rec) :
+    Gen.C07Sites.cmds.map Cmd.defaults = [[some 0, some 0, some 0], [some 0, some 0], [some 0, some 0, some 0, some 0], []] ∧
+    cmdLength {} recs = cmdLength { l := some 0, root := false, tips := false } recs ∧
+    cmdSupport {} recs = cmdSupport { s := some 0, root := false } recs ∧
+    cmdDepth {} recs = cmdDepth { mn := some 0, mx := some 0, root := false, tips := false } recs := by
+  refine ⟨by rw [sites_cmds_check]; decide +kernel, rfl, rfl, rfl⟩
+
+/-- the hypotheses of the table theorems are met by concrete values: a root branch of a rooted tree without
+    `--root` is kept, the same branch under `--root` is contracted, a terminal branch is zeroed by `--tips` -/
+example : Sites.fateOfGuards Gen.C07Sites.guards false false false 2 true = .rootBranch ∧
+    Sites.fateOfGuards Gen.C07Sites.guards true false false 2 true = .contracted ∧
+    Sites.fateOfGuards Gen.C07Sites.guards false true true 3 false = .tip true := by decide +kernel
+
+
+/-! ## Histories: several collapses on ONE tree (the sequences `C07.seq` runs on one object)
+
+  A collapse leaves what the next one needs — branch ids still pairwise distinct, the root condition — and
+  the two filters of the branch list compose (`keepV2`): the second criterion is evaluated on the branch AS
+  THE FIRST LEFT IT (a tip zeroed by `removeTips` is judged with length 0).  Same `removeRoot` in both steps. -/
+
+/-- ★ two collapses in a row, any two selections -/
+theorem collapse_then_collapse {β : Type} (f : List String → β) (hf : PermInv f)
+    (sel1 sel2 : SplitE → Bool) (selV1 selV2 : β × EdgeD × Bool → Bool) (rr rt1 rt2 : Bool) (t : T)
+    (hsel1 : ∀ s ∈ t.splits, sel1 s = selV1 (f s.below, s.e, s.tip))
+    (hsel2 : ∀ s ∈ (collapse sel1 rr rt1 t).splits, sel2 s = selV2 (f s.below, s.e, s.tip))
+    (hid : uniqueIds t = true) (h : RootOK rr t) :
+    uniqueIds (collapse sel1 rr rt1 t) = true ∧ RootOK rr (collapse sel1 rr rt1 t) ∧
+    (obsT f (collapse sel2 rr rt2 (collapse sel1 rr rt1 t))).Perm
+      ((obsT f t).filterMap (keepV2 selV1 selV2 rt1 rt2)) := by
+  have hid' : uniqueIds (collapse sel1 rr rt1 t) = true := uniqueIds_removeEdges rr rt1 _ t hid h
+  have h' : RootOK rr (collapse sel1 rr rt1 t) := rootOK_removeEdges rr rt1 _ t h
+  refine ⟨hid', h', ?_⟩
+  have p1 := collapse_exact f hf sel1 selV1 rr rt1 t hsel1 hid h
+  have p2 := collapse_exact f hf sel2 selV2 rr rt2 _ hsel2 hid' h'
+  refine p2.trans ((p1.filterMap _).trans (List.Perm.of_eq ?_))
+  rw [List.filterMap_filterMap]; rfl
+
+/-- `collapse length` then `collapse support` on the same tree -/
+theorem collapseLen_then_collapseSup {β : Type} (f : List String → β) (hf : PermInv f) (l x : Rat)
+    (rr rt : Bool) (t : T) (hid : uniqueIds t = true) (h : RootOK rr t) :
+    (obsT f (collapseSup x rr (collapseLen l rr rt t))).Perm
+      ((obsT f t).filterMap (keepV2 (fun y => decide (y.2.1.len ≤ l))
+        (fun y => y.2.1.sup != NIL && decide (y.2.1.sup < x)) rt false)) :=
+  (collapse_then_collapse f hf (selLen l) (selSup x) _ _ rr rt false t (fun _ _ => rfl) (fun _ _ => rfl) hid h).2.2
+
+/-- `collapse support` then `collapse length` on the same tree -/
+theorem collapseSup_then_collapseLen {β : Type} (f : List String → β) (hf : PermInv f) (l x : Rat)
+    (rr rt : Bool) (t : T) (hid : uniqueIds t = true) (h : RootOK rr t) :
+    (obsT f (collapseLen l rr rt (collapseSup x rr t))).Perm
+      ((obsT f t).filterMap (keepV2 (fun y => y.2.1.sup != NIL && decide (y.2.1.sup < x))
+        (fun y => decide (y.2.1.len ≤ l)) false rt)) :=
+  (collapse_then_collapse f hf (selSup x) (selLen l) _ _ rr false rt t (fun _ _ => rfl) (fun _ _ => rfl) hid h).2.2
+
+/-- collapsing twice with the same threshold changes nothing the second time -/
+theorem collapseLen_idempotent {β : Type} (f : List String → β) (hf : PermInv f) (l : Rat)
+    (rr rt : Bool) (t : T) (hid : uniqueIds t = true) (h : RootOK rr t) :
+    (obsT f (collapseLen l rr rt (collapseLen l rr rt t))).Perm (obsT f (collapseLen l rr rt t)) := by
+  have p := (collapse_then_collapse f hf (selLen l) (selLen l) (fun y => decide (y.2.1.len ≤ l)) (fun y => decide (y.2.1.len ≤ l))
+    rr rt rt t (fun _ _ => rfl) (fun _ _ => rfl) hid h).2.2
+  have q := collapseLen_exact f hf l rr rt t hid h
+  refine p.trans (List.Perm.trans (List.Perm.of_eq ?_) q.symm)
+  apply filterMap_congr'
+  intro x _
+  exact keepV_idem _ rt x
+
+/-- the same for supports -/
+theorem collapseSup_idempotent {β : Type} (f : List String → β) (hf : PermInv f) (x : Rat)
+    (rr : Bool) (t : T) (hid : uniqueIds t = true) (h : RootOK rr t) :
+    (obsT f (collapseSup x rr (collapseSup x rr t))).Perm (obsT f (collapseSup x rr t)) := by
+  have p := (collapse_then_collapse f hf (selSup x) (selSup x) (fun y => y.2.1.sup != NIL && decide (y.2.1.sup < x))
+    (fun y => y.2.1.sup != NIL && decide (y.2.1.sup < x)) rr false false t (fun _ _ => rfl) (fun _ _ => rfl) hid h).2.2
+  have q := collapseSup_exact f hf x rr t hid h
+  refine p.trans (List.Perm.trans (List.Perm.of_eq ?_) q.symm)
+  apply filterMap_congr'
+  intro y _
+  exact keepV_idem _ false y
+/-- the hypotheses are met by `exR` with `--root` (see the examples above), and the history is what it should be:
+    `-l 0 --root` removes branch 0, `-s 50 --root` then removes branch 3 (support 20) and keeps 4 (support 90) -/
+example : (collapseLen 0 true false exR).splits.map (·.e.id) = [3, 4, 5, 6, 7, 1, 2] ∧
+    (collapseSup 50 true (collapseLen 0 true false exR)).splits.map (·.e.id) = [1, 2, 4, 5, 6, 7] := by decide
 
 end Gotree.C07
